@@ -214,6 +214,11 @@ func dischargeAll(obs []*Oblig, dir string, timeoutS int, workers int) {
 			ob.Backend = "trivial"
 			continue
 		}
+		if ob.Goal != nil && ob.Expect == "unsat" && ob.Kind == "lemma" && polyProve(ob.Hyps, ob.Goal) {
+			ob.Result = "unsat"
+			ob.Backend = "poly"
+			continue
+		}
 		wg.Add(1)
 		sem <- struct{}{}
 		go func(ob *Oblig) {
